@@ -87,6 +87,23 @@ def path_index(n: int, i: int, c0: int, c1: int, c2: int, c3: int, c4: int) -> b
     return (type(got) is Path and got.items() == exp) or fail(got=got, exp=exp)
 
 
+def _value_roundtrip(got, exp):
+    """a Path obtained by slicing is a Path like any other: it pickles (every protocol), copies and repr-round-trips to a
+    Path with the same steps"""
+    import copy
+    for proto in (0, 2, pickle.HIGHEST_PROTOCOL):
+        try:
+            z = pickle.loads(pickle.dumps(got, proto))
+        except Exception as e:
+            return fail(why='a sliced Path does not pickle', got=got, proto=proto, e=e)
+        if type(z) is not Path or z.items() != exp:
+            return fail(why='pickle of a sliced Path differs', got=got, z=z)
+    for z in (copy.copy(got), copy.deepcopy(got)):
+        if type(z) is not Path or z.items() != exp:
+            return fail(why='copy of a sliced Path differs', got=got, z=z)
+    return True
+
+
 def path_slice(n: int, i: Optional[int], j: Optional[int], k: Optional[int], c0: int, c1: int, c2: int, c3: int,
                c4: int) -> bool:
     start()
@@ -102,7 +119,7 @@ def path_slice(n: int, i: Optional[int], j: Optional[int], k: Optional[int], c0:
     exp = tup[i:j:k]
     reach('slice')
     ok = type(got) is Path and got.items() == exp and len(got) == len(exp)
-    return ok or fail(why='slice', got=got, exp=exp, i=i, j=j, k=k)
+    return (ok or fail(why='slice', got=got, exp=exp, i=i, j=j, k=k)) and _value_roundtrip(got, exp)
 
 
 def path_slice_fixed(n: int, i: Optional[int], j: Optional[int], k: Optional[int]) -> bool:
@@ -119,8 +136,10 @@ def path_slice_fixed(n: int, i: Optional[int], j: Optional[int], k: Optional[int
     got = p[i:j:k]
     exp = tup[i:j:k]
     reach('slice_fixed')
+    if len(exp) == 0:
+        reach('slice_empty')
     ok = type(got) is Path and got.items() == exp and len(got) == len(exp)
-    return ok or fail(why='slice', got=got, exp=exp, i=i, j=j, k=k)
+    return (ok or fail(why='slice', got=got, exp=exp, i=i, j=j, k=k)) and _value_roundtrip(got, exp)
 
 
 def path_rel(n: int, m: int, c0: int, c1: int, c2: int, d0: int, d1: int, d2: int, spell: int) -> bool:
@@ -197,6 +216,59 @@ def compose(np: int, nq: int, c0: int, c1: int, d0: int, d1: int, u: int, v: int
     if isinstance(e, (dict, list, NS)):
         return g is e or fail(why='identity', g=g, e=e)
     return g == e or fail(why='value', g=g, e=e)
+
+
+def concat_root(root: int, np: int, nq: int, how: int, c0: int, c1: int, d0: int, d1: int, u: int) -> bool:
+    """Path(p, q) is p's steps followed by q's steps FROM p's ROOT, also when p has no steps at all (a bare T, S or A, or a
+    slice [:0] of a longer path); for an S-rooted p the result reads the scope"""
+    start()
+    root, np, nq, how = concretize(root, 0, 2), concretize(np, 0, 2), concretize(nq, 0, 2), concretize(how, 0, 2)
+    if OUT in (root, np, nq, how):
+        return True
+    r = [T, S, A][root]
+    ps, qs = _pick([c0, c1][:np]), _pick([d0, d1][:nq])
+    if None in ps or None in qs:
+        return True
+    if root == 2:                    # an A (assignment) path only takes attribute steps
+        ps = [('.', 'p%d' % i) for i in range(len(ps))]
+        qs = [('.', 'q%d' % i) for i in range(len(qs))]
+        if np + nq > 1:
+            return True              # ... and only one of them
+    p_t = _mk_t([(('[' if op == 'P' else op), arg) for op, arg in ps], r)
+    q_t = _mk_t([(('[' if op == 'P' else op), arg) for op, arg in qs])
+    if how == 0:
+        whole = Path(p_t, q_t)
+    elif how == 1:
+        if root != 0:
+            return True              # a Path as first part must be T-rooted (documented ValueError otherwise)
+        whole = Path(Path(p_t), Path(q_t))
+    else:
+        if root == 2:
+            return True
+        longer = Path(_mk_t([('[', 'extra'), ('.', 'more')], p_t))
+        whole = Path(longer[:np].path_t, q_t)              # a prefix slice (possibly empty) of a longer path with the same root
+    exp_t = _mk_t([(('[' if op == 'P' else op), arg) for op, arg in ps + qs], r)
+    reach('concat_root')
+    if np == 0 and root != 0:
+        reach('concat_bare_root')
+    if not ops_eq(whole.path_t, exp_t):
+        return fail(why='Path(p, q) is not the steps of p then q from the root of p', whole=whole, exp=exp_t)
+    if repr(whole) != repr(Path(exp_t)):
+        return fail(why='repr', whole=repr(whole), exp=repr(Path(exp_t)))
+    if root == 1 and np == 0 and nq >= 1 and qs[0] in (('P', 'a'), ('[', 'y'), ('.', 'x')):
+        # evaluation: an S-rooted path reads the scope, not the target
+        name = qs[0][1]
+        if nq == 1 or qs[1] not in (('P', 'a'), ('[', 'y'), ('.', 'x')):
+            return True
+        inner = {'a': u, 'y': u + 1}
+        class _O:
+            x = u + 2
+        if qs[1][0] == '.':
+            inner = _O()
+        got = glom({'a': 'target', 'y': 'target', 'x': 'target'}, whole, scope={name: inner}, glom_debug=True)
+        expv = {'a': u, 'y': u + 1, 'x': u + 2}[qs[1][1]]
+        return got == expv or fail(why='an S-rooted concatenation must read the scope', got=got, exp=expv)
+    return True
 
 
 # ---- repr / pickle round trip ---------------------------------------------------------------------
@@ -446,6 +518,17 @@ def obligations(tier):
                     fx['d1'] = 0
                 pre = ' and '.join([_cs(np_, len(SEGS), ['c0', 'c1']), _cs(nq, len(SEGS), ['d0', 'd1'])])
                 obs.append(Ob(compose, fixed=fx, pre=pre, name='compose_p%d_q%d_s%d' % (np_, nq, spell)))
+    for root in range(3):
+        for np_ in range(3):
+            for nq in range(3):
+                fx = {'root': root, 'np': np_, 'nq': nq}
+                for nm in ['c0', 'c1'][np_:] + ['d0', 'd1'][nq:]:
+                    fx[nm] = 0
+                pre = ' and '.join(['0 <= how <= 2', _cs(np_, 3, ['c0', 'c1']), _cs(nq, 4, ['d0', 'd1'])])
+                obs.append(Ob(concat_root, fixed=fx, pre=pre, name='concat_root_r%d_p%d_q%d' % (root, np_, nq), timeout=150))
+    obs.append(Ob(concat_root, fixed={'root': 1, 'np': 0, 'nq': 2, 'c0': 0, 'c1': 0}, pre='0 <= how <= 2 and ' + _cs(2, 4, ['d0', 'd1']),
+                  twin='concat_bare_root', name='concat_root_r1_p0_q2'))
+    obs.append(Ob(path_slice_fixed, fixed={'n': 2}, pre=_dom(2), twin='slice_empty', name='path_slice_fixed_n2'))
     for root in range(3):
         obs.append(Ob(roundtrip1, fixed={'root': root, 'leaf': 7}, pre='0 <= c0 < %d' % NSTEPS, name='roundtrip1_r%d' % root))
         for c0 in range(NSTEPS):
